@@ -774,7 +774,10 @@ def build_nifty(I, prog, upto=None, vdoms=None):
             r = I.ScalingOperator(a.target, nd[2]).inverse @ a
         elif op == "app":
             a = O(nd[2])
-            r = OBJ(nd[1], a.target) @ a
+            ob = OBJ(nd[1], a.target)
+            if ob.domain is not a.target:
+                raise RuntimeError("harness: shared operator object applied on a foreign domain")
+            r = ob @ a
         elif op == "sum":
             r = O(nd[1]).sum(nd[2] if nd[2] is None else tuple(nd[2]))
         elif op == "integ":
@@ -1010,7 +1013,7 @@ class Gen:
         self.linstart, self.minbin = linstart, minbin
         self.force_varcov = bool(force_varcov and md and not total)
         self.nodes, self.info = [], []
-        self.objs = []
+        self.objs, self.objdom = [], []
         self.inputs, self.virtual, self.env = {}, {}, {}
         self.banned = set()
         self.open_subst = None
@@ -1378,10 +1381,13 @@ class Gen:
         else:
             ob = [k, int(rng.integers(0, 10**6))]
         self.objs.append(ob)
+        self.objdom.append(ds)        # an operator object lives on one domain
         return len(self.objs) - 1
 
     def app(self, j, a):
         inf = self.info[a]
+        if inf["t"][1] != self.objdom[j]:
+            return None               # the same object cannot act on another domain
         mag = self.obj_mag(self.objs[j], inf["mag"] or 0.)
         if mag is None:
             return None
@@ -1393,10 +1399,12 @@ class Gen:
         a = self.choose(self.dtnodes())
         if a is None:
             return None
-        if self.objs and rng.random() < 0.6:
-            j = int(rng.integers(0, len(self.objs)))
+        ds = self.info[a]["t"][1]
+        fit = [j for j in range(len(self.objs)) if self.objdom[j] == ds]
+        if fit and rng.random() < 0.6:
+            j = fit[int(rng.integers(0, len(fit)))]
         else:
-            j = self.new_obj(self.info[a]["t"][1])
+            j = self.new_obj(ds)
         return self.app(j, a)
 
     def nondiag(self, a):
